@@ -1561,6 +1561,15 @@ Proof.
       destruct H as [H|[H|[]]]; [discriminate|]. injection H as -> ->. now left.
 Qed.
 
+(* the order of effects in the Go source (regenerated call sequences) is the one the model of
+   persistence relies on; a reordering of the source breaks these three lemmas *)
+Lemma gc_saves_before_sweep_ok : gc_saves_before_sweep = true.
+Proof. vm_compute. reflexivity. Qed.
+Lemma gc_tests_ctx_before_remove_ok : gc_tests_ctx_before_remove = true.
+Proof. vm_compute. reflexivity. Qed.
+Lemma delete_saves_before_unlink_ok : delete_saves_before_unlink = true.
+Proof. vm_compute. reflexivity. Qed.
+
 (* index.json is current: [disk] is what saveIndex writes for the reference map *)
 Definition synced (p : pstate) : Prop := seteq (disk p) (save_form (idx (mem p))).
 Definition pstate_ok (p : pstate) : Prop := refs_ok (idx (mem p)) /\ synced p /\ autosave p = true.
@@ -1592,7 +1601,8 @@ Proof.
       unfold untag in E. destruct (lookup (RTag t) (idx (mem p))); injection E as <- <-; [discriminate|exact Hs].
     + pose proof (step_refs_ok kl (mem p) (ODelete n) Hr) as Hr'. cbn [step] in Hr'.
       destruct (delete succ subject manifest cfg_fixed ord_id (mem p) n) as [m r] eqn:E. cbn [fst] in *.
-      split; [exact Hr'|split; [|exact Ha]]. rewrite Ha. apply saved_synced. cbn [andb]. intro Hq.
+      split; [exact Hr'|split; [|exact Ha]]. rewrite Ha, delete_saves_before_unlink_ok.
+      apply saved_synced. cbn [andb orb]. rewrite andb_true_r. intro Hq.
       apply negb_false_iff in Hq. apply entries_eqb_eq in Hq. rewrite Hq. exact Hs.
     + pose proof (step_refs_ok kl (mem p) OGC Hr) as Hr'. cbn [step] in Hr'.
       destruct (gc succ subject manifest cfg_fixed kl (fun _ => candidates (idx (mem p))) (mem p)) as [m r] eqn:E.
@@ -1623,7 +1633,8 @@ Proof.
     cbn [fst]. unfold gc_cancel in E.
     pose proof (gc_refs_ok kl (fun _ => candidates (idx (mem p))) (mem p) ltac:(tauto)) as Hg. unfold gc in Hg.
     destruct (gc_index _ _ _ _ _ _ (mem p)) as [[ix g]|]; injection E as <- <-.
-    + cbn [fst idx] in Hg. split; [exact Hg|split; [|exact Ha]]. rewrite Ha. apply saved_synced. discriminate.
+    + cbn [fst idx] in Hg. split; [exact Hg|split; [|exact Ha]].
+      rewrite Ha, gc_saves_before_sweep_ok, gc_tests_ctx_before_remove_ok. apply saved_synced. discriminate.
     + split; [exact Hr|split; [|exact Ha]]. rewrite Ha. apply saved_synced. intros _. exact Hs.
 Qed.
 
@@ -2122,3 +2133,7 @@ Lemma reload_is_reopen_final : forall succ subject manifest,
   (forall x, In x (gnodes a) <-> In x (gnodes b)) /\
   strays a = strays b /\ autogc a = autogc b.
 Proof. intros succ subject manifest _ _ kl p Hp. apply reload_is_reopen. exact Hp. Qed.
+
+Lemma effect_order_final :
+  gc_saves_before_sweep = true /\ gc_tests_ctx_before_remove = true /\ delete_saves_before_unlink = true.
+Proof. split; [exact gc_saves_before_sweep_ok|split; [exact gc_tests_ctx_before_remove_ok|exact delete_saves_before_unlink_ok]]. Qed.
